@@ -146,12 +146,12 @@ func init() {
 		{Harness: pkgFeeder + ".VerifFeedOnce", Quick: p("attempts", 2, "maxproof", 1), Thorough: p("attempts", 3, "maxproof", 1), Covers: []string{"feed/success-first-try", "feed/success-after-retry", "feed/witness-ahead", "feed/refresh", "feed/context-done", "feed/unverifiable-checkpoint"}},
 	}})
 	reg(&checkSpec{ID: "C15", Assumptions: append([]string{"net/http client contract: Do answers with an arbitrary status/body, a transport error, or a redirect that changed the method", "url.Parse(x).String() is modelled as x (no normalisation); url.PathEscape is an uninterpreted function"}, commonAssumptions...), Runs: []runSpec{
-		{Harness: pkgRest + ".VerifDistribute", Domain: sym.DomString, Solver: sym.CVC5, Quick: p("logs", 2), Thorough: p("logs", 3), Covers: []string{"dist/pushed", "dist/all-succeeded", "dist/partial-failure"}},
+		{Harness: pkgRest + ".VerifDistribute", Domain: sym.DomString, Solver: sym.CVC5, Quick: p("logs", 2, "io_faults", 1), Thorough: p("logs", 3, "io_faults", 1), Covers: []string{"dist/pushed", "dist/all-succeeded", "dist/partial-failure"}},
 	}})
 	reg(&checkSpec{ID: "C16", Assumptions: append([]string{"gorilla/mux route matching is outside the claim (mux.Vars returns the symbolic id)", "log-list order: the stores are iterated in insertion order by the engine; JSON encoding of a string list is an injective constructor"}, commonAssumptions...), Runs: []runSpec{
 		{Harness: pkgHTTP + ".VerifReadAPI", Quick: p("logs", 2, "signers", 1, "maxproof", 1, "store", 0), Thorough: p("logs", 3, "signers", 2, "maxproof", 2, "store", 0), Covers: []string{"http/found", "http/unknown-id", "http/known-id-nothing-stored", "http/first-accept-adds-entry", "http/refused-first-submission"}},
 		{Harness: pkgHTTP + ".VerifReadAPI", Quick: p("logs", 2, "signers", 1, "maxproof", 1, "store", 1), Thorough: p("logs", 3, "signers", 2, "maxproof", 2, "store", 1), Covers: []string{"http/found", "http/unknown-id", "http/known-id-nothing-stored", "http/first-accept-adds-entry", "http/refused-first-submission"}},
-		{Harness: pkgClientHTTP + ".VerifClientGet", Domain: sym.DomString, Solver: sym.CVC5, Quick: p(), Thorough: p(), Covers: []string{"client/200", "client/404", "client/other"}},
+		{Harness: pkgClientHTTP + ".VerifClientGet", Domain: sym.DomString, Solver: sym.CVC5, Quick: p("io_faults", 1), Thorough: p("io_faults", 1), Covers: []string{"client/200", "client/404", "client/other"}},
 	}})
 	bastCovers := []string{"bast/429", "bast/400-malformed", "bast/404", "bast/403", "bast/400-oldsize", "bast/409-stale", "bast/409-root", "bast/422", "bast/200"}
 	reg(&checkSpec{ID: "C10", Assumptions: append([]string{"parseBody is replaced by its contract (decided in C11); rate.Limiter.Allow is an arbitrary boolean; the TLS 1.3 + HTTP/2 reverse connection (connectAndServe) is outside the claim", "formats/note.NewVerifier and formats/log.ID are uninterpreted functions of the key text / origin"}, commonAssumptions...), Runs: []runSpec{
@@ -163,7 +163,7 @@ func init() {
 		{Harness: pkgPixel + ".VerifFeedHostile", Quick: p("attempts", 1), Thorough: p("attempts", 2), Unwind: 140, Covers: []string{"hostile/cycle-succeeds", "hostile/cycle-fails", "hostile/proof-built"}},
 		{Harness: pkgPixel + ".VerifReadTiles", Domain: sym.DomString, Solver: sym.Z3, Covers: []string{"pixel/readtiles-ok"}},
 		{Harness: pkgClient + ".VerifDataToLeaves", Domain: sym.DomArray, Quick: p("maxlen", 6), Thorough: p("maxlen", 10), Covers: []string{"leaves/two"}},
-		{Harness: pkgBastion + ".VerifServeArbitraryBody", Domain: sym.DomString, Solver: sym.CVC5, Quick: p("k", 2), Thorough: p("k", 3), Unwind: 4, CutOnUnwind: true, Covers: []string{"serve/200", "serve/400", "serve/500"}},
+		{Harness: pkgBastion + ".VerifServeArbitraryBody", Domain: sym.DomString, Solver: sym.CVC5, Quick: p("k", 2, "io_faults", 1), Thorough: p("k", 3, "io_faults", 1), Unwind: 4, CutOnUnwind: true, Covers: []string{"serve/200", "serve/400", "serve/500"}},
 		{Harness: pkgWitness + ".VerifProofUnmarshalArbitrary", Domain: sym.DomString, Solver: sym.CVC5, Quick: p("maxsplit", 3), Thorough: p("maxsplit", 5), Covers: []string{"proof/arbitrary-two-lines", "proof/arbitrary-refused"}},
 		{Harness: pkgOmni + ".VerifBastion", Quick: p("logs", 1, "maxproof", 1, "store", 0), Thorough: p("logs", 2, "maxproof", 2, "store", 0)},
 		{Harness: pkgFeeder + ".VerifFeedOnce", Quick: p("attempts", 2, "maxproof", 1), Thorough: p("attempts", 2, "maxproof", 2)},
